@@ -17,7 +17,7 @@ func init() {
 		Level: "other",
 		Explanation: "Structural necessary conditions of 'precondition violations are rejected, not absorbed', decided on every path of the current source: " +
 			"(R1) for every exported operation with an entity-handle parameter, every use of that handle's id as an index into the entity index, the target flags or the pool, in the operation or in any callee that receives the handle, is dominated by a liveness test of that same handle (documented ...Unchecked accessors are listed as exemptions); " +
-			"(R2) the lock test comes first (C07/R1); (R3) inside operations reachable from those entry points no path leads from a store into row/pool/entity-index/target-flag state to an explicit library panic, except the internal assertions listed with reasons; " +
+			"(R2) the lock test comes first (C07/R1); (R3) inside operations reachable from those entry points, and from the exported single-entity operations that take an entity from the pool, no path leads from a store into row/pool/entity-index/target-flag state to an explicit library panic, except the internal assertions listed with reasons; " +
 			"(R4) the graph search tests a component's mask bit (panicking on duplicate/missing) before flipping it. " +
 			"(R5 = C04/R6) a dead relation target is rejected: relation targets are compared as whole entities and the per-target table lookup returns a table only after it matched the requested relations, so that an unknown or recycled target falls through to the validating table creation. Not decided: full state equality after recover; batch operations.",
 		TrustedBase: []string{"go/types, go/cfg", "anchor table (DESIGN.md §2.3)", "role derivation: alive-test = bool function comparing Entity.gen with pool memory without stores"},
@@ -308,6 +308,37 @@ func c10r3(c *core.Ctx) {
 				visit(f)
 				break
 			}
+		}
+	}
+	// ... and the exported single-entity operations that create an entity (they take one from the pool, directly or in
+	// a callee): a creation that is rejected must not have consumed a pool entry either
+	var takesFromPool func(f *core.Func, seen map[*core.Func]bool) bool
+	takesFromPool = func(f *core.Func, seen map[*core.Func]bool) bool {
+		if a.PoolGet[f] {
+			return true
+		}
+		if seen[f] || f.Body == nil {
+			return false
+		}
+		seen[f] = true
+		found := false
+		core.InspectNoLits(f.Body, func(n ast.Node) bool {
+			if call, ok := n.(*ast.CallExpr); ok && !found {
+				if k, cal, _ := m.Callee(call); k == core.CallStatic && takesFromPool(cal, seen) {
+					found = true
+				}
+			}
+			return !found
+		})
+		return found
+	}
+	for _, f := range m.Funcs {
+		if !f.Exported() || f.Sig == nil || reach[f] || hasBatchParam(f) || f.Recv == "entityPool" {
+			continue
+		}
+		if takesFromPool(f, map[*core.Func]bool{}) {
+			roots++
+			visit(f)
 		}
 	}
 	spec := core.OrderSpec{
